@@ -8,6 +8,7 @@ import (
 	"net"
 	"sync"
 	"sync/atomic"
+	"syscall"
 	"time"
 
 	"github.com/Jigsaw-Code/outline-sdk/transport"
@@ -208,7 +209,11 @@ type TCPRig struct {
 	active        atomic.Int64
 	lastReturn    atomic.Int64 // unix nano of the last handler return
 	serveReturned atomic.Int64 // unix nano when StreamServe returned
-	done          chan struct{}
+	// fault injection: the next N calls of the accept function fail at once with EMFILE
+	// ("too many open files"), as accept(2) does while a flood has exhausted the descriptors
+	acceptFaults         atomic.Int64
+	acceptFaultsReturned atomic.Int64
+	done                 chan struct{}
 }
 
 func StartTCPRig(keys []KeySpec, o TCPRigOpts) *TCPRig {
@@ -239,6 +244,10 @@ func StartTCPRig(keys []KeySpec, o TCPRigOpts) *TCPRig {
 	auth := service.NewShadowsocksStreamAuthenticator(rig.CL, o.Replay, o.SSMetrics, nil)
 	rig.Handler = service.NewStreamHandler(auth, o.Timeout)
 	accept := func() (transport.StreamConn, error) {
+		if rig.acceptFaults.Load() > 0 && rig.acceptFaults.Add(-1) >= 0 {
+			rig.acceptFaultsReturned.Add(1)
+			return nil, &net.OpError{Op: "accept", Net: "tcp", Err: syscall.EMFILE}
+		}
 		var c *net.TCPConn
 		if sl != nil {
 			sc, err := sl.AcceptStream()
